@@ -378,11 +378,8 @@ Definition templates : list (string * ktemplate) :=
     ("RangeStmt", KT [T "For" 3; Ch "Body"] [CNonNil "Body"]);
     (* [Name] Path  — EndPos overrides the end when set *)
     ("ImportSpec", KT [Op "Name"; Ch "Path"; IAt "EndPos" (CValid "EndPos")] [CNonNil "Path"]);
-    (* Names [Type] ["tag"] ["=" Values].
-       FINDING: ValueSpec.End ignores the Tag of a classfile field; the last clause of the requirement
-       restricts the theorem to the value specs for which End is right (see C17_span_refuted_ValueSpecTag) *)
-    ("ValueSpec", KT [IList "Names"; Op "Type"; Op "Tag"; IList "Values"]
-                     [CLenPos "Names"; COr (CNot (CNonNil "Tag")) (CLenPos "Values")]);
+    (* Names [Type] ["tag"] ["=" Values]   (the tag of a classfile field follows the type) *)
+    ("ValueSpec", KT [IList "Names"; Op "Type"; Op "Tag"; IList "Values"] [CLenPos "Names"]);
     ("TypeSpec", KT [Ch "Name"; Ch "Type"] [CNonNil "Name"; CNonNil "Type"]);
     (* Tok Spec   |   Tok "(" Specs ")" *)
     ("GenDecl", KT [ITok "TokPos" (LTok "Tok") CTrue; IList "Specs"; Tv "Rparen" 1]
